@@ -9,7 +9,7 @@ RULE = ('every n in 1..N with position-revealing symmetric integer matrices in f
         'contiguous / transposed / strided-window inputs through the real get_triu/fill_triu and the '
         'symmetric allreduce/broadcast paths under simdist; malformed (non-square, non-2-D) shapes through '
         'the three communicator entry points; non-trivial = n ≥ 2; distinct = (n, dtype, layout) or shape'
-        '; bit-exact round trips of extreme entries (max/min normal, subnormal, ±0, ±inf) in four dtypes; n = 1023…2049 (3000 thorough); several symmetric tensors in flight through the bucketed path at capacities around one packed tensor; sub-groups whose group-local ranks differ from the global ones; ranks handing in differently laid-out (row-major, column-major, strided) tensors to one symmetric collective')
+        '; bit-exact round trips of extreme entries (max/min normal, subnormal, ±0, ±inf) in four dtypes; n = 1023…2049 (3000 thorough); several symmetric tensors in flight through the bucketed path at capacities around one packed tensor; sub-groups whose group-local ranks differ from the global ones; ranks handing in differently laid-out (row-major, column-major, strided) tensors to one symmetric collective; round trips interleaved with get_triu on wide matrices in one process; torch.use_deterministic_algorithms(True)')
 TRUSTED = [
     'Lean 4.33 kernel; axioms audited ⊆ {propext, Classical.choice, Quot.sound}',
     'hand-written model KV.Comm.getTriu/fillTriu/checkShape tied to kfac/distributed.py by this correspondence',
@@ -95,6 +95,7 @@ def run(ctx):
     comm_stream(ctx)
     pipeline_stream(ctx)
     layout_stream(ctx)
+    history_stream(ctx)
     subgroup_stream(ctx)
     reject_stream(ctx)
 
@@ -364,6 +365,79 @@ def layout_stream(ctx):
         ctx.evaluations += 1
         ctx.case(('layout', world, n, str(dtype), entry, tuple(lay), src), nontrivial=True, sample=case if trial < 3 else None)
         ctx.count('layout-' + entry)
+
+
+def history_stream(ctx):
+    """packing is a function of its argument: round trips of square matrices interleaved with get_triu on wide matrices
+    (fewer rows than columns, which the function accepts) of the same column count, in one process, in any order; and the same round
+    trips and symmetric collectives with torch.use_deterministic_algorithms(True), which a reproducibility-minded training
+    script sets globally"""
+    from kfac.distributed import TorchDistributedCommunicator, fill_triu, get_triu
+    rng = ctx.rng
+    for trial in range(ctx.budget(30, 200)):
+        n = rng.choice([2, 3, 5, 7, 8])
+        dtype = rng.choice([torch.float32, torch.float64])
+        case = {'stream': 'history', 'n': n, 'dtype': str(dtype), 'calls': []}
+        try:
+            for _ in range(rng.randrange(1, 5)):
+                r, c = rng.choice([(rng.randrange(1, n), n), (rng.randrange(1, n), n), (n, n), (rng.randrange(1, n + 3), rng.randrange(1, n + 3))])
+                if r > c:
+                    r, c = c, r         # (more rows than columns is rejected by get_triu)
+                case['calls'].append((r, c))
+                M = torch.arange(r * c, dtype=dtype).reshape(r, c) + 1
+                v = get_triu(M)
+                want = torch.stack([M[i, j] for i in range(r) for j in range(c) if j >= i]) if any(j >= i for i in range(r) for j in range(c)) else M.new_zeros(0)
+                if v.shape != want.shape or not torch.equal(v, want):
+                    ctx.fail(f'get_triu of a {r}x{c} matrix is not its row-major upper triangle', case, 'history-triu')
+                    break
+            A = sym_matrix(n, dtype, 97)
+            v = get_triu(A)
+            B = fill_triu((n, n), v)
+            if v.numel() != n * (n + 1) // 2 or not torch.equal(B, A):
+                ctx.fail(f'round trip of a symmetric {n}x{n} matrix fails after the calls {case["calls"]}', case, 'history-roundtrip')
+        except Exception as e:  # noqa: BLE001
+            ctx.fail(f'packing raised {type(e).__name__}: {e}', case, 'history-raised')
+        ctx.evaluations += 1
+        ctx.case(('history', n, str(dtype), tuple(case['calls'])), nontrivial=True)
+        ctx.count('history')
+    # deterministic-algorithms mode
+    was = torch.are_deterministic_algorithms_enabled()
+    try:
+        torch.use_deterministic_algorithms(True)
+        for n in (1, 2, 3, 7, 16):
+            for dtype in (torch.float32, torch.float64):
+                case = {'stream': 'deterministic', 'n': n, 'dtype': str(dtype)}
+                try:
+                    A = sym_matrix(n, dtype, 97)
+                    if not torch.equal(fill_triu((n, n), get_triu(A)), A):
+                        ctx.fail('round trip differs with deterministic algorithms enabled', case, 'deterministic-roundtrip')
+                except Exception as e:  # noqa: BLE001
+                    ctx.fail(f'round trip raised {type(e).__name__} with torch.use_deterministic_algorithms(True): {str(e)[:160]}', case, 'deterministic-raised')
+                ctx.evaluations += 1
+        for entry in ('allreduce', 'broadcast', 'allreduce_bucketed'):
+            n, world = 5, 2
+
+            def prog(rank, entry=entry, n=n):
+                tdc = TorchDistributedCommunicator(bucket_cap_mb=25.0)
+                A = sym_matrix(n, torch.float64, 97) * (rank + 1)
+                if entry == 'broadcast':
+                    out = tdc.broadcast(A if rank == 0 else torch.zeros_like(A), src=0, symmetric=True)
+                elif entry == 'allreduce':
+                    out = tdc.allreduce(A, symmetric=True)
+                else:
+                    out = tdc.allreduce_bucketed(A, symmetric=True)
+                    tdc.flush_allreduce_buckets()
+                return out.wait() if not isinstance(out, torch.Tensor) else out
+            wd, res = simdist.run_world(world, prog, seed=ctx.seed + 5)
+            case = {'stream': 'deterministic', 'entry': entry}
+            want = sym_matrix(n, torch.float64, 97) * (1 if entry == 'broadcast' else 3)
+            if wd.exceptions or wd.stalled or wd.errors or any(r is None or not torch.equal(r, want) for r in res):
+                ctx.fail(f'symmetric {entry} with deterministic algorithms enabled: exc={wd.exceptions} stalled={wd.stalled} '
+                         f'errors={wd.errors[:1]} or a result different from the dense one', case, 'deterministic-comm')
+            ctx.evaluations += 1
+            ctx.count('deterministic-comm')
+    finally:
+        torch.use_deterministic_algorithms(was)
 
 
 def comm_stream(ctx):
